@@ -292,7 +292,11 @@ func drawDefect(rt *rapid.T) Defect {
 	unknownAbv := func() string {
 		for tries := 0; ; tries++ {
 			var a string
-			if rapid.IntRange(0, 3).Draw(rt, "abvsrc") == 0 {
+			if rapid.IntRange(0, 9).Draw(rt, "longabv") == 0 {
+				// long unknown abbreviations (an error value that truncates what it carries)
+				n := []int{31, 32, 33, 64, 65, 100, 255, 256, 257, 1000, 70000}[rapid.IntRange(0, 10).Draw(rt, "abvlen")]
+				a = strings.Repeat(rapid.StringMatching(`[A-Za-z]{1,3}`).Draw(rt, "unit"), n)[:n]
+			} else if rapid.IntRange(0, 3).Draw(rt, "abvsrc") == 0 {
 				a = rapid.StringMatching(`[A-Za-z]{1,4}`).Draw(rt, "rndabv")
 			} else {
 				a = gen.AllAbvs()[rapid.IntRange(0, len(gen.AllAbvs())-1).Draw(rt, "poolabv")]
@@ -535,8 +539,11 @@ func TestC18(t *testing.T) {
 				c.Val = gen.BStr(valPool[rapid.IntRange(0, len(valPool)-1).Draw(rt, "val")])
 			}
 		} else {
-			if rapid.IntRange(0, 4).Draw(rt, "rawabv") == 0 {
+			if r := rapid.IntRange(0, 9).Draw(rt, "rawabv"); r < 2 {
 				c.Abv = gen.BStr(gen.Raw(rt))
+			} else if r == 2 {
+				n := []int{31, 32, 33, 64, 65, 100, 255, 256, 257, 1000, 70000}[rapid.IntRange(0, 10).Draw(rt, "abvlen")]
+				c.Abv = gen.BStr(strings.Repeat(rapid.StringMatching(`[A-Za-z]{1,3}`).Draw(rt, "unit"), n)[:n])
 			} else {
 				c.Abv = gen.BStr(abvPool[rapid.IntRange(0, len(abvPool)-1).Draw(rt, "abv")])
 			}
